@@ -634,6 +634,32 @@ def _memo_slots(ctx: Any) -> Dict[str, FuncInfo]:
     return out
 
 
+def memo_clear_obligations(ctx: Any, R: str) -> List[Ob]:
+    """Every memo slot is reset on EVERY path through async_clear_cache (shared with C08.PURGE: a memo that survives a
+    re-registration keeps serving -- with a full TTL -- records of the name the description had before, after their goodbyes)."""
+    info = ctx.prog.cls(INFO)
+    slots = _memo_slots(ctx)
+    clr = info.methods.get('async_clear_cache')
+    if clr is None:
+        raise AnalysisError('anchor vanished: ServiceInfo.async_clear_cache')
+    me = clr.params[0]
+
+    def eff(node: Any, evl: Any) -> List[Any]:
+        out = []
+        if node.kind == 'stmt':
+            for t, st in attr_stores(node.ast):
+                if self_attr(t, me) and isinstance(st, ast.Assign) and isinstance(st.value, ast.Constant) and st.value.value is None:
+                    out.append('CLR:' + t.attr)
+        return out
+
+    oc, _ = traces(ctx, clr, {}, eff, loop_bound=1)
+    on_all = set.intersection(*[{x[4:] for x in strip_ret(t) if isinstance(x, str) and x.startswith('CLR:')} for t in oc]) if oc else set()
+    obs: List[Ob] = []
+    for a, b in sorted(slots.items()):
+        obs.append(ob(R, clr, f'self.{a} = None', f'async_clear_cache resets memo slot `{a}` (filled by {b.name}) on every path', a in on_all, f'reset on every path: {sorted(on_all)}'))
+    return obs
+
+
 @rule('C03.MEMO', 'N', expect_min=12)
 def memo(ctx: Any) -> List[Ob]:
     """Record-memo discipline of a service description: every memo slot
@@ -653,9 +679,7 @@ def memo(ctx: Any) -> List[Ob]:
     clr = info.methods.get('async_clear_cache')
     if clr is None:
         raise AnalysisError('anchor vanished: ServiceInfo.async_clear_cache')
-    cleared = {t.attr for t, s in attr_stores(clr.node) if isinstance(s, ast.Assign) and isinstance(s.value, ast.Constant) and s.value.value is None}
-    for a, b in sorted(slots.items()):
-        obs.append(ob(R, clr, f'self.{a} = None', f'async_clear_cache resets memo slot `{a}` (filled by {b.name})', a in cleared))
+    obs.extend(memo_clear_obligations(ctx, R))
     # registry clears before inserting
     add = prog.func(REG + '._add')
     cfg = cfg_of(add.node)
